@@ -53,6 +53,9 @@ CLAIMED = {
  "C10": ("sibling agreement of every Mangle/Unmangle pair (arity vs tuple-index provenance) + induction/offset arithmetic of the Transformer + universally-quantified flag formulas (go/ssa)",
          "Decides the positional bookkeeping that makes reversal lossless: for all 9 manglers every tuple index read on the Unmangle side is admitted by Mangle's arities or a dominating length test (variable indices bounded or count-checked); ReverseTranslate's window and offset use the same len(state.out), manglers are unwound in descending order of how they were applied, states are stored at their field index; struct recursion excludes TextUnmarshalers by value and by pointer everywhere; flatten's any-child-set flag is old||nested / true-under-non-nil and gates the parent; rebuilt containers are make-built and zero results only follow nil tests; ShouldRecurse table.",
          "Not decided: translate/fill/reverse results on arbitrary reflect-built types (run-time computation)."),
+ "C15": ("dominance + constant/size reasoning on every narrowing conversion of a parsed number (both amd64 and 386 type sizes) + error-propagation + writer/reader sibling agreement (go/ssa, go/types sizes)",
+         "Decides the no-wrap clause completely: every conversion of a parsed number to a narrower or differently-signed type is discharged by the strconv bit size (constant <= result width, or unsafe.Sizeof of the same type parameter) or by a dominating reflect Overflow* test on reflect.Zero of the type whose kind selected the arm, with arm kind == result kind. Also: base 0 / trimming arguments, every strconv/scanner/Unquote/callback error reaches the caller, writers and readers agree on quoting, separators and signedness of integer formatting, duplicate keys are rejected before storing.",
+         "Not decided: parse(format(v)) == v for all values and strings (a law over runtime strings). Trusted: strconv, reflect Overflow*, text/scanner."),
 }
 
 NOT_YET = {}
